@@ -105,7 +105,11 @@ func clusterProgram(rng *rand.Rand, prog []string) []string {
 		case r == 0:
 			ops = append(ops, "c.restart "+follower())
 		case r == 1:
-			checkpoint()
+			// with a checkpoint first, the new leader replays only the marker entry; without, the request
+			// just written (committed, but not yet applied by the follower)
+			if rng.Intn(2) == 0 {
+				checkpoint()
+			}
 			leader = follower()
 			ops = append(ops, "c.elect "+leader)
 		case r == 2 && !joined && writes > 2:
@@ -319,7 +323,14 @@ func (e *c06Exec) op(op string) string {
 		return "ok"
 	case "c.elect":
 		if err := e.c.Elect(f[1], e.members); err != nil {
-			return "err:elect:" + strings.ReplaceAll(err.Error(), " ", "_")
+			msg := "err:elect:" + strings.ReplaceAll(err.Error(), " ", "_")
+			if strings.Contains(msg, "failed_to_applies_wal_entries_to_db") {
+				return msg
+			}
+			// an election that fails for another reason belongs to C04/C05; the rest of the script has
+			// no leader and is not comparable
+			e.poisoned = true
+			return "~" + msg
 		}
 		return "ok"
 	case "c.join":
@@ -402,8 +413,8 @@ func (C06) Oracle(ops, impl, model []string) string {
 			return fmt.Sprintf("op %d: replicas that applied the same committed prefix differ: %s", i, out)
 		case strings.HasPrefix(out, "NOT-SYNCED"):
 			return fmt.Sprintf("op %d: a replica does not reach the committed prefix: %s", i, out)
-		case strings.HasPrefix(out, "err:"):
-			return fmt.Sprintf("op %d (%s): %s", i, strings.Fields(o)[0], out)
+		case strings.HasPrefix(out, "err:") && strings.Contains(out, "failed_to_applies_wal_entries_to_db"):
+			return fmt.Sprintf("op %d (%s): the replay of committed entries by a new leader fails, although the entries were applied live and by the followers: %s", i, strings.Fields(o)[0], out)
 		}
 	}
 	return ""
